@@ -105,3 +105,12 @@ def class_referenced_by_qualified_name_not_identity(v):
     attribute) or classes whose name is not bound in their module resolve to the wrong class or to nothing."""
     f = v.get("facts", {})
     return f.get("monitor") in ("identity", "closure") and f.get("kind") in HOMONYM_KINDS
+
+
+@predicate
+def bound_typevar_nullable_except_at_codec_root(v):
+    """F35: a bound TypeVar is treated as Optional[bound] in field and nested positions but not when it is the root
+    shape of a codec: null is accepted everywhere except by BasicDecoder(T) / decode(None, T) themselves."""
+    f = v.get("facts", {})
+    return (f.get("type_kinds") == ["tv"] and f.get("input_is_none") is True and v.get("sig", "").startswith("decode-disagree")
+            and "raise->ok" in v.get("sig", ""))
